@@ -9,6 +9,7 @@ import (
 	"context"
 	"fmt"
 	"sync"
+	"sync/atomic"
 	"time"
 
 	"github.com/tilinna/clock"
@@ -92,7 +93,7 @@ func onGrid(t time.Time, interval, offset time.Duration) bool {
 }
 
 func (c18) Run(e *Env) {
-	e.ProbeDecl("regime-bubble", "regime-mock", "slow-consumer", "jump-over-several-intervals", "step-lands-on-boundary", "step-1ns-before-boundary", "offset-beyond-interval", "sub-second-interval", "non-round-interval", "start-on-boundary", "backend-attached", "start-before-unix-epoch", "start-beyond-int64-nanoseconds")
+	e.ProbeDecl("regime-bubble", "regime-mock", "slow-consumer", "jump-over-several-intervals", "step-lands-on-boundary", "step-1ns-before-boundary", "offset-beyond-interval", "sub-second-interval", "non-round-interval", "start-on-boundary", "backend-attached", "start-before-unix-epoch", "start-beyond-int64-nanoseconds", "clock-moves-between-reading-and-arming")
 	intervals := []time.Duration{time.Millisecond, 250 * time.Millisecond, 333 * time.Millisecond, time.Second, 1500 * time.Millisecond, 2500 * time.Millisecond, 7 * time.Second, 10 * time.Second, 90 * time.Second, time.Hour}
 	interval := intervals[e.Draw(len(intervals))]
 	if interval < time.Second {
@@ -133,6 +134,7 @@ func (c18) Run(e *Env) {
 	var mock *clock.Mock
 	start := time.Now()
 	shiftedEpoch := false
+	var armLag time.Duration
 	if mockRegime {
 		// the injected clock may read anything: also instants before the Unix epoch and beyond the
 		// range of int64 nanoseconds since it (what the bubble clock reads is added, so that the
@@ -154,6 +156,15 @@ func (c18) Run(e *Env) {
 		}
 		mock = clock.NewMock(start)
 		ctx = clock.Context(ctx, mock)
+		if e.Chance(1, 3) {
+			// the clock moves on between one of the first readings and what the reader does next (the
+			// ticker goroutine is descheduled between reading the time and arming its first timer)
+			lc := &c18LagClock{Mock: mock, lagAt: int32(1 + e.Draw(2)), lag: time.Duration(1+e.Draw(999)) * interval / 1000}
+			ctx = clock.Context(ctx, lc)
+			armLag = lc.lag
+			e.Probe("clock-moves-between-reading-and-arming")
+			e.Fault("preempted-after-reading-the-clock")
+		}
 		proc.now = mock.Now
 		e.Probe("regime-mock")
 	} else {
@@ -250,7 +261,8 @@ func (c18) Run(e *Env) {
 			e.Event("flush %d elapsed=%v", checked+1, f.interval)
 		}
 		// promptness of the first flush: once the clock has reached the first boundary it must have happened
-		if !now().Before(firstBoundary) && proc.n() == 0 {
+		// (a ticker that was preempted between reading the clock and arming its timer is that much late)
+		if !now().Before(firstBoundary.Add(armLag)) && proc.n() == 0 {
 			e.Failf("C18/first-flush-missing", "the clock reads start+%v, the first boundary was at start+%v, and no flush has happened", now().Sub(start), firstBoundary.Sub(start))
 		}
 		// bubble clock without stalls: exactly one flush per grid point passed
@@ -345,4 +357,21 @@ func (c18) Run(e *Env) {
 		e.Failf("C18/flushing-stopped", "the clock advanced three intervals in quarter-interval steps with no stall, yet only %d flushes happened", proc.n()-before)
 	}
 	e.Note["flushes"] = proc.n()
+}
+
+// c18LagClock is the injected mock clock, except that right after its lagAt-th reading the time
+// moves on by lag: whoever read it acts on a stale reading.
+type c18LagClock struct {
+	*clock.Mock
+	n     atomic.Int32
+	lagAt int32
+	lag   time.Duration
+}
+
+func (c *c18LagClock) Now() time.Time {
+	t := c.Mock.Now()
+	if c.n.Add(1) == c.lagAt {
+		c.Mock.Add(c.lag)
+	}
+	return t
 }
